@@ -248,6 +248,11 @@ Fixpoint split_lf (s : str) : list str :=
   end.
 
 Definition prefix_line (p l : str) : str := if py_truthy l then p ++ l else l.
+(* the two shapes of filters.do_lineprefix the translator accepts; Generated.do_lineprefix is one of them (lineprefix_keepends) *)
+Definition lineprefix_legacy (s p : str) : str := py_join [10] (map (prefix_line p) (py_splitlines s)).
+Definition prefix_line_keep (p l : str) : str := if py_truthy (py_line_content l) then p ++ l else l.
+Definition lineprefix_keep (s p : str) : str := py_join [] (map (prefix_line_keep p) (py_splitlines_keep s)).
+Definition lineprefix_m (keep : bool) : str -> str -> str := if keep then lineprefix_keep else lineprefix_legacy.
 
 (* ------------------------------------------------------------------------------------------ *)
 (* (3) assert / ifuses                                                                          *)
